@@ -42,13 +42,47 @@ fn two_forms(g: &mut G, ctx: &RunCtx) -> RunReport {
     let f1 = form1.clone();
     let f2 = form2.clone();
     let seen3 = seen.clone();
+    // (no draw) both builders are clones of one (a template the caller keeps around): every form is its own form
+    let from_one_template = (form1.texts.len() + form1.files.len() + form2.texts.len()) % 2 == 0;
+    if from_one_template {
+        g.probe("two-forms-built-from-clones-of-one-builder");
+    }
     let out = sim.run(move || {
-        let r1 = mk_plan(&f1).send(attohttpc::RequestBuilder::new(attohttpc::Method::POST, &url)).map(|r| r.status().as_u16()).map_err(|e| err_kind(&e));
+        fn add_parts<'a>(mut b: attohttpc::MultipartBuilder<'a, 'a>, f: &'a reqgen::FormSpec) -> Result<attohttpc::MultipartBuilder<'a, 'a>, String> {
+            for (k, v) in &f.texts {
+                b = b.with_text(k, v);
+            }
+            for (n, d, fname, mime) in &f.files {
+                let mut mf = attohttpc::MultipartFile::new(n, d);
+                if let Some(x) = fname {
+                    mf = mf.with_filename(x);
+                }
+                if let Some(m) = mime {
+                    mf = mf.with_type(m).map_err(|e| err_kind(&e))?;
+                }
+                b = b.with_file(mf);
+            }
+            Ok(b)
+        }
+        let send_built = |b: Result<attohttpc::MultipartBuilder, String>| -> Result<u16, String> {
+            let form = b?.build().map_err(|e| err_kind(&e))?;
+            attohttpc::RequestBuilder::new(attohttpc::Method::POST, &url).body(form).send().map(|r| r.status().as_u16()).map_err(|e| err_kind(&e))
+        };
+        let template = attohttpc::MultipartBuilder::new();
+        let r1 = if from_one_template {
+            send_built(add_parts(template.clone(), &f1))
+        } else {
+            mk_plan(&f1).send(attohttpc::RequestBuilder::new(attohttpc::Method::POST, &url)).map(|r| r.status().as_u16()).map_err(|e| err_kind(&e))
+        };
         // the second form carries the body of the first as a file
         let body1 = seen3.lock().unwrap().requests.first().and_then(|(_, r)| r.as_ref().ok().map(|r| r.body.clone())).unwrap_or_default();
         let mut f2 = f2;
         f2.files.push(("capture".into(), body1, Some("first-request.bin".into()), None));
-        let r2 = mk_plan(&f2).send(attohttpc::RequestBuilder::new(attohttpc::Method::POST, &url)).map(|r| r.status().as_u16()).map_err(|e| err_kind(&e));
+        let r2 = if from_one_template {
+            send_built(add_parts(template.clone(), &f2))
+        } else {
+            mk_plan(&f2).send(attohttpc::RequestBuilder::new(attohttpc::Method::POST, &url)).map(|r| r.status().as_u16()).map_err(|e| err_kind(&e))
+        };
         (r1, r2, f2)
     });
     let mut stats = Stats::default();
